@@ -18,6 +18,8 @@ pub struct Ctx {
     pub shards: usize,
     /// strict mode (replay): known findings are not tolerated
     pub strict: bool,
+    /// this process is a sub-run of another nlv process: print the report as JSON instead of finishing
+    pub inner: bool,
 }
 
 impl Ctx {
@@ -360,5 +362,56 @@ pub fn finish(ctx: &Ctx, mut rep: Report) -> i32 {
         0
     } else {
         1
+    }
+}
+
+/// Serialises the parts of a report a parent process merges
+pub fn inner_json(rep: &Report) -> Value {
+    json!({
+        "evaluations": rep.evaluations,
+        "nontrivial": rep.nontrivial.len(),
+        "classes": rep.classes,
+        "violations": rep.violations.iter().map(|v| v.to_json()).collect::<Vec<_>>(),
+        "samples": rep.samples,
+    })
+}
+
+/// Runs the same property in the binary of another build profile and merges what it found
+pub fn run_inner(ctx: &Ctx, profile: &str, id: &str, rep: &mut Report) {
+    let exe = verif_dir().join("harness/target").join(profile).join("nlv");
+    let out = std::process::Command::new(&exe)
+        .arg(id)
+        .arg("--tier")
+        .arg(if ctx.tier == Tier::Quick { "quick" } else { "thorough" })
+        .arg("--inner")
+        .env("VERIF_SEED", ctx.seed.to_string())
+        .env("VERIF_SHARDS", ctx.shards.to_string())
+        .output();
+    let out = match out {
+        Ok(o) => o,
+        Err(e) => {
+            eprintln!("cannot run {}: {e}", exe.display());
+            std::process::exit(2)
+        }
+    };
+    let text = String::from_utf8_lossy(&out.stdout);
+    let line = text.lines().rev().find(|l| l.starts_with("INNER ")).unwrap_or_else(|| {
+        eprintln!("inner run ({profile}) produced no report; status {:?}\n{}", out.status, String::from_utf8_lossy(&out.stderr));
+        std::process::exit(2)
+    });
+    let v: Value = serde_json::from_str(&line[6..]).expect("inner json");
+    let n = v["evaluations"].as_u64().unwrap_or(0);
+    rep.evaluations += n;
+    rep.count_n(&format!("{profile}-profile:evaluations"), n);
+    if let Some(c) = v["classes"].as_object() {
+        for (k, x) in c {
+            rep.count_n(&format!("{profile}-profile:{k}"), x.as_u64().unwrap_or(0));
+        }
+    }
+    for x in v["violations"].as_array().cloned().unwrap_or_default() {
+        if let Some(mut viol) = Violation::from_json(&x) {
+            viol.driver = format!("{}@{profile}", viol.driver);
+            rep.violation(viol);
+        }
     }
 }
